@@ -748,7 +748,24 @@ pub fn check_json(v: &Val) -> Result<(), String> {
             json_other_paths(&pkg, &y, &|a, b| a.version == b.version && a.checksum == b.checksum && b.validate().is_ok(), "PriceLevelSnapshotPackage")?;
             y.validate().map_err(|e| format!("package no longer validates after serde trip ({}): {}", s2, e))?;
             let restored = PriceLevel::from_snapshot_package(back).map_err(|e| format!("restore failed: {e}"))?;
-            same("PriceLevelSnapshotPackage -> level", &s, &level_content(&level), &level_content(&restored))
+            same("PriceLevelSnapshotPackage -> level", &s, &level_content(&level), &level_content(&restored))?;
+            // the same package carrying some other checksum text and version (it will not validate,
+            // but it is a value of the type and must survive both encoders unchanged)
+            const TEXTS: [&str; 10] = ["", "00", "not hex", "quote\"inside", "back\\slash", "tab\tnew\nline", "bell\u{7}\u{8}\u{c}", "nul\u{0}del\u{7f}", "é€\u{1F600}", "\u{2028}\u{85}\u{feff}"];
+            let h = hash_of(b) as usize;
+            let mut odd = pkg.clone();
+            odd.checksum = TEXTS[h % TEXTS.len()].to_string();
+            odd.version = [0u32, 1, 2, u32::MAX][(h >> 8) % 4];
+            let t = odd.to_json().map_err(|e| format!("to_json failed: {e}"))?;
+            let back = PriceLevelSnapshotPackage::from_json(&t).map_err(|e| format!("the library cannot read the package text it wrote ({:?}): {}", t, e))?;
+            if back.version != odd.version || back.checksum != odd.checksum || back.snapshot.orders.len() != odd.snapshot.orders.len() {
+                return Err(format!("package (version {}, checksum {:?}) came back from to_json / from_json as (version {}, checksum {:?})", odd.version, odd.checksum, back.version, back.checksum));
+            }
+            let (t2, y2) = json_rt(&odd)?;
+            if y2.version != odd.version || y2.checksum != odd.checksum {
+                return Err(format!("package (version {}, checksum {:?}) came back from serde as (version {}, checksum {:?}) via {}", odd.version, odd.checksum, y2.version, y2.checksum, t2));
+            }
+            Ok(())
         }
         Val::Stats(a) => {
             let x = stats_of(a);
